@@ -8,7 +8,7 @@
    repeated-run search, not by proof. *)
 From Coq Require Import List NArith Bool Permutation.
 From Verif Require Import Base.Res Model.Analyzer Proofs.AnalyzerProofs Base.Text Model.Scope Proofs.ScopeProofs Gen.GenRules Model.Rules Proofs.RulesProofs.
-From Verif Require Model.DeclRules Proofs.DeclRulesProofs Gen.GenExprKind Proofs.ExprKindGen Model.ExprKind Proofs.ExprKindProofs Model.DataDecl Proofs.DataDeclProofs Proofs.DataDeclComplete.
+From Verif Require Model.Lsp Proofs.LspInv Model.Project Proofs.ProjectProofs Model.DeclRules Proofs.DeclRulesProofs Gen.GenExprKind Proofs.ExprKindGen Model.ExprKind Proofs.ExprKindProofs Model.DataDecl Proofs.DataDeclProofs Proofs.DataDeclComplete.
 Import ListNotations.
 
 Theorem C06_verdict_order_independent :
@@ -124,3 +124,10 @@ Proof. exact DeclRulesProofs.rule_perm. Qed.
 Theorem C06_element_order : forall mk l l', Permutation l l' ->
   (DeclRules.scan mk [] l = [] <-> DeclRules.scan mk [] l' = []).
 Proof. exact DeclRulesProofs.scan_perm. Qed.
+
+(* file order and run: the project's sources live in a map whose iteration order changes from run to run; they are sorted by file
+   identifier before they are analyzed, so the list the analysis is given depends on the contents only -- whatever the order
+   in which the files were added (or the documents opened, changed and closed) *)
+Theorem C06_file_order_and_run : forall (text : Type) (a b : Lsp.docs text),
+  LspInv.same_contents text a b -> Project.listing text a = Project.listing text b.
+Proof. exact ProjectProofs.listing_ext. Qed.
